@@ -1,6 +1,6 @@
 // U driver for C36: base64 coding (the functions the build uses + squid's own lib/base64.cc) and Basic credentials
 // (the real Auth::Basic::Config::decode -> decodeCleartext -> split at the first colon).
-// In:  rt <n|o> <hex s> <esplit> <dsplit> | dec <n|o> <hex e> <split> | rt3 <n|o> | basic <cs 0/1> <hex header value>
+// In:  rt <n|o> <hex s> <esplit> <dsplit> | rtall <n|o> <hex prefix> | dec <n|o> <hex e> <split> | rt3 <n|o> | basic <cs 0/1> <hex header value>
 // Out: one JSON line per case (see u_base64_ops.h), flushed.
 #include "squid.h"
 #include "auth/basic/Config.h"
@@ -14,6 +14,7 @@ namespace OwnB64 {
 void Rt(const std::string &s, long es, long ds, std::ostream &os);
 void Dec(const std::string &e, long split, std::ostream &os);
 void Rt3(std::ostream &os);
+void RtAll(const std::string &p, std::ostream &os);
 }
 namespace UsedB64 {
 #include "u_base64_ops.h"
@@ -52,6 +53,9 @@ int main()
             const auto e = U::Unhex(t[2]);
             if (own) OwnB64::Dec(e, atol(t[3].c_str()), std::cout);
             else UsedB64::OpDec("used", e, atol(t[3].c_str()), std::cout);
+        } else if (t[0] == "rtall" && t.size() >= 3) {
+            const auto p = U::Unhex(t[2]);
+            if (own) OwnB64::RtAll(p, std::cout); else UsedB64::OpRtAll("used", p, std::cout);
         } else if (t[0] == "rt3") {
             if (own) OwnB64::Rt3(std::cout); else UsedB64::OpRt3("used", std::cout);
         } else if (t[0] == "basic" && t.size() >= 3) {
